@@ -504,8 +504,13 @@ func (c *Cursor) Filter(ctx context.Context, idxStr string, val []interface{}) e
 			err = c.cursor.Ceil(ctx, c.max)
 			if err == nil {
 				if _, _, ok := c.cursor.Get(); !ok {
-					// every key is below the upper bound; start from the last one
-					err = c.cursor.Max(ctx)
+					// every key is below the upper bound; start from the last
+					// one (Ceil has left the cursor without a position, and
+					// Max only descends from a position: take a new cursor)
+					c.cursor, err = c.t.Tree.Root.Cursor(ctx)
+					if err == nil {
+						err = c.cursor.Max(ctx)
+					}
 				}
 			}
 		} else {
